@@ -11,8 +11,8 @@ import (
 
 func init() {
 	register(&PropMeta{
-		ID:    "C11",
-		Level: "other",
+		ID:          "C11",
+		Level:       "other",
 		Explanation: "Decides the wiring that makes the hand wait for exactly the players it asked: (R1) the event→handler table pairs ready-requested, ante-requested, blinds-requested, round-closed and game-closed with the handler that plays that role; (R2) each request handler drives the ready group Stop → OnCompleted → ResetParticipants → Add* → Start and never pre-readies anyone; (R3) the completion closure of the ready / ante / blinds handler calls exactly ReadyForAll / PayAnte / PayBlinds, and those group steps are called from nowhere else; (R4) ready and ante ask every player of the hand unconditionally, blinds ask a player only under 'blind X > 0 ∧ player holds position X' for matching X ∈ {BB, SB, dealer}; (R5) Ready/Pay signal the ready group with the validated index; (R6) the round-closed handler asks the backend for the next step and publishes the new state only on success, the game-closed handler closes the state channel once; (R7) the ready group is built with the response timeout and a handler that readies every silent participant. NOT decided: termination of every hand; order-independence of responses (inside syncsaga).",
 		Rules: map[string]string{
 			"R1": "event→handler dispatch table, by handler role",
@@ -315,7 +315,9 @@ func checkC11(c *Ctx) {
 				for _, c3 := range Calls(h) {
 					if calleeName(c3.Common()) == "syncsaga.ReadyGroup.Ready" {
 						idx := p.Sym(c3.Common().Args[1]).Strip()
-						notReady := guardedBy(p.Guards(c3), false, func(s *Sym) bool { return s.Kind == "rangeval" && s.Args[0].IsCall("syncsaga.ReadyGroup.GetParticipantStates") })
+						notReady := guardedBy(p.Guards(c3), false, func(s *Sym) bool {
+							return s.Kind == "rangeval" && s.Args[0].IsCall("syncsaga.ReadyGroup.GetParticipantStates")
+						})
 						if idx.Kind == "rangekey" && notReady && isT && t > 0 {
 							okT = true
 							c.Ok("R7", "response-timeout", p.InstrPos(c2), fmt.Sprintf("timeout %ds, readies every silent participant", t))
